@@ -46,6 +46,11 @@ type C18Sc struct {
 	// TightStack: SP is placed so that exactly the one slot a CALL needs lies between
 	// the end of the program image (or of a string) and SP: "0" = not, "prog", "str"
 	TightStack string `json:"tight_stack,omitempty"`
+	// Host usage of tinycpm.IO: PreWriter != "" = SetStdout is first called with another writer
+	// ("buffer": *bytes.Buffer, which also has WriteByte; "plain": Write only) and then with the
+	// real console; ByteWriter = the real console also offers WriteByte (io.ByteWriter).
+	PreWriter  string `json:"pre_writer,omitempty"`
+	ByteWriter bool   `json:"byte_writer,omitempty"`
 }
 
 type c18 struct{}
@@ -124,8 +129,21 @@ func (c18) Gen(r *world.Rng, tier string, n int) interface{} {
 				}
 			}
 			sc.Items = append(sc.Items, C18Item{Kind: "fill", Fill: hex.EncodeToString(f)})
-		case x < 92:
+		case x < 89:
 			sc.Items = append(sc.Items, C18Item{Kind: "out", Port: uint8(r.Range(1, 255)), Ch: r.Byte()})
+		case x < 92:
+			// console output through the other OUT forms: OUT (C),r to port 0 and OTIR to port 0
+			// (B = count, 0 means 256), from a string stored like the function-9 ones
+			if r.Bool() {
+				sc.Items = append(sc.Items, C18Item{Kind: "outc", Ch: r.Byte()})
+			} else {
+				l := r.Pick(1, 2, 3, 17, 255, 256)
+				b := r.Bytes(l)
+				if int(strAddr)+l+1 <= 0xe000 {
+					sc.Items = append(sc.Items, C18Item{Kind: "otir", Addr: strAddr, Str: hex.EncodeToString(b)})
+					strAddr += uint16(l + 1)
+				}
+			}
 		default:
 			sc.Items = append(sc.Items, C18Item{Kind: "in", Port: r.Byte()})
 		}
@@ -157,6 +175,10 @@ func (c18) Gen(r *world.Rng, tier string, n int) interface{} {
 			sc.CancelAt = append(sc.CancelAt, uint64(r.Range(1, 3000)))
 		}
 	}
+	if r.Chance(1, 4) {
+		sc.PreWriter = []string{"buffer", "plain"}[r.Intn(2)]
+	}
+	sc.ByteWriter = r.Chance(1, 4)
 	if len(sc.Events) == 0 && r.Chance(1, 4) {
 		// the stack has exactly the one slot the CALL needs, right behind code or a string
 		prog, _, _, _, strs := c18Assemble(sc)
@@ -189,6 +211,14 @@ type faultWriter struct {
 }
 
 var errConsole = errors.New("simulated console failure")
+
+// byteFaultWriter additionally offers WriteByte (io.ByteWriter) with the same accounting.
+type byteFaultWriter struct{ *faultWriter }
+
+func (w *byteFaultWriter) WriteByte(b byte) error {
+	_, err := w.faultWriter.Write([]byte{b})
+	return err
+}
 
 func (w *faultWriter) Write(p []byte) (int, error) {
 	i := w.calls
@@ -235,6 +265,14 @@ func c18Assemble(sc *C18Sc) (prog []uint8, rets []uint16, expect []byte, warns i
 		case "in":
 			prog = append(prog, 0xdb, it.Port)
 			warns++
+		case "outc":
+			prog = append(prog, 0x16, it.Ch, 0x0e, 0x00, 0xed, 0x51) // LD D,ch ; LD C,0 ; OUT (C),D
+			expect = append(expect, it.Ch)
+		case "otir":
+			s, _ := hex.DecodeString(it.Str)
+			prog = append(prog, 0x21, uint8(it.Addr), uint8(it.Addr>>8), 0x01, 0x00, uint8(len(s)), 0xed, 0xb3) // LD HL,addr ; LD BC,len<<8|0 ; OTIR
+			expect = append(expect, s...)
+			strs = append(strs, world.MkSeg(it.Addr, s))
 		case "badfn":
 			prog = append(prog, 0x0e, it.Ch, 0xcd, 0x05, 0x00)
 		}
@@ -293,7 +331,19 @@ func c18Run(sc *C18Sc, env *Env, bubble bool) *Violation {
 		fw.fail[i] = true
 	}
 	var warnBuf bytes.Buffer
-	io.SetStdout(fw)
+	var pre bytes.Buffer
+	var prePlain faultWriter
+	switch sc.PreWriter {
+	case "buffer":
+		io.SetStdout(&pre)
+	case "plain":
+		io.SetStdout(&prePlain)
+	}
+	if sc.ByteWriter {
+		io.SetStdout(&byteFaultWriter{fw})
+	} else {
+		io.SetStdout(fw)
+	}
 	io.SetWarnLogger(log.New(&warnBuf, "", 0))
 
 	var tick uint64
@@ -395,6 +445,9 @@ func c18Run(sc *C18Sc, env *Env, bubble bool) *Violation {
 		if cpu.SP != sc.SP {
 			return viol("returns-to-caller", "final SP=%04x, want %04x", cpu.SP, sc.SP)
 		}
+	}
+	if pre.Len() != 0 || len(prePlain.all) != 0 {
+		return viol("console-stream", "%d console bytes went to a writer that had been replaced by SetStdout before the program ran", pre.Len()+len(prePlain.all))
 	}
 	// console stream
 	if len(sc.WriteFail) == 0 || fw.calls <= minInt(sc.WriteFail) {
